@@ -14,6 +14,7 @@ package main
 
 import (
 	"bytes"
+	"sync"
 	"context"
 	"encoding/binary"
 	"errors"
@@ -119,6 +120,10 @@ type caseIn struct {
 	Seed     int    `json:"seed"`
 	Local    string `json:"local"` // "tcp" | "pipe"
 	SmallBuf bool   `json:"small_buf"`
+	// the method set the forwarder sees on LocalConn: "cw" Read/Write/Close/CloseWrite, "rwc" Read/Write/Close, "rw" Read/Write
+	Shape     string `json:"shape"`
+	UseCloser bool   `json:"use_closer"` // LocalConnCloser configured
+	Order     string `json:"order"`      // halfclose mode: "peer-first" | "local-first"
 }
 
 type decObs struct {
@@ -173,7 +178,22 @@ func hmust(err error) {
 	}
 }
 
+var failMu sync.Mutex
+
+// safeReadFrame: one ReadFrameFromReader call under recover (the property says bad input is REJECTED, never a panic)
+func safeReadFrame(r io.Reader) (tid [16]byte, ty byte, data []byte, err error, panicked interface{}) {
+	defer func() {
+		if p := recover(); p != nil {
+			panicked = p
+		}
+	}()
+	tid, ty, data, err = crossnode.ReadFrameFromReader(r)
+	return
+}
+
 func (o *caseOut) fail(key, format string, args ...interface{}) {
+	failMu.Lock()
+	defer failMu.Unlock()
 	if o.PropOK {
 		o.PropOK = false
 		o.PropKey = key
@@ -244,8 +264,18 @@ func decodeAll(wire []byte, cuts []int, out *caseOut, record bool) []decObs {
 		}
 		snap := *r
 		runtime.ReadMemStats(&m1)
-		tid, ty, data, err := crossnode.ReadFrameFromReader(r)
+		tid, ty, data, err, pnc := safeReadFrame(r)
 		runtime.ReadMemStats(&m2)
+		if pnc != nil {
+			hd := snap.data
+			if len(hd) > hdrSize {
+				hd = hd[:hdrSize]
+			}
+			out.fail("decoder-panic", "ReadFrameFromReader PANICKED (%v) at offset %d on header % x (type byte %#x, declared length %d) instead of returning an error",
+				pnc, pos, hd, typeByte(snap.data), hdrN)
+			obs = append(obs, decObs{Ok: false, Eof: false, Consumed: -1})
+			return obs
+		}
 		delta := m2.TotalAlloc - m1.TotalAlloc
 		consumed := before - len(r.data)
 		// allocation bound: header + payload (<= MaxFrameSize) + slack for size classes and error values;
@@ -261,7 +291,7 @@ func decodeAll(wire []byte, cuts []int, out *caseOut, record bool) []decObs {
 			r2 := snap
 			runtime.Gosched()
 			runtime.ReadMemStats(&m1)
-			crossnode.ReadFrameFromReader(&r2)
+			safeReadFrame(&r2)
 			runtime.ReadMemStats(&m2)
 			if d := m2.TotalAlloc - m1.TotalAlloc; d < delta {
 				delta = d
@@ -314,6 +344,13 @@ func decodeAll(wire []byte, cuts []int, out *caseOut, record bool) []decObs {
 	}
 	out.fail("decoder-result", "decoder did not stop on a %d-byte input", len(wire))
 	return obs
+}
+
+func typeByte(b []byte) int {
+	if len(b) > 16 {
+		return int(b[16])
+	}
+	return -1
 }
 
 func sameDec(a, b []decObs) bool {
@@ -464,6 +501,7 @@ func execOps(c *caseIn, a *net.TCPConn) []wres {
 }
 
 type readRes struct {
+	panicMsg string
 	reads  [][]byte
 	term   string
 	final  string
@@ -563,7 +601,14 @@ func runReader(c *caseIn, wire []byte, dribble []int, limit int) readRes {
 		a.CloseWrite() // TCP FIN: the transport ends after the script, so the reader always terminates
 	}()
 	rdone := make(chan readRes, 1)
-	go func() { rdone <- readerSide(c, b, limit) }()
+	go func() {
+		defer func() {
+			if p := recover(); p != nil {
+				rdone <- readRes{term: "panic", panicMsg: fmt.Sprint(p)}
+			}
+		}()
+		rdone <- readerSide(c, b, limit)
+	}()
 	var rr readRes
 	select {
 	case rr = <-rdone:
@@ -676,6 +721,9 @@ func runStream(c *caseIn, out *caseOut) {
 		}
 	}
 
+	if rr.term == "panic" {
+		out.fail("decoder-panic", "FrameStream.Read PANICKED (%s) on a connection carrying %d wire bytes % x... instead of returning an error", rr.panicMsg, len(wire), wire[:minInt(len(wire), 63)])
+	}
 	switch rr.term {
 	case "hang", "runaway", "zero", "err+data":
 		out.fail("reader-"+rr.term, "FrameStream.Read: %s after %d reads / %d bytes", rr.term, len(rr.reads), len(got))
@@ -763,7 +811,14 @@ func runConc(c *caseIn, out *caseOut) {
 		}
 	}
 	rdone := make(chan readRes, 1)
-	go func() { rdone <- readerSide(c, b, limit) }()
+	go func() {
+		defer func() {
+			if p := recover(); p != nil {
+				rdone <- readRes{term: "panic", panicMsg: fmt.Sprint(p)}
+			}
+		}()
+		rdone <- readerSide(c, b, limit)
+	}()
 	wdone := make(chan struct{}, len(groups))
 	start := make(chan struct{})
 	for _, g := range groups {
@@ -833,11 +888,11 @@ func runFwd(c *caseIn, out *caseOut) {
 	fsB := crossnode.NewFrameStream(crossnode.NewConn(context.Background(), "A", xb, nil), id)
 	fdone := make(chan string, 2)
 	go func() {
-		session.VerifRunBidirectionalForward(&session.BidirectionalForwardConfig{TunnelID: idStr, LogPrefix: "A", LocalConn: localA, RemoteConn: fsA})
+		forwardGuarded(out, &session.BidirectionalForwardConfig{TunnelID: idStr, LogPrefix: "A", LocalConn: localA, RemoteConn: fsA})
 		fdone <- "A"
 	}()
 	go func() {
-		session.VerifRunBidirectionalForward(&session.BidirectionalForwardConfig{TunnelID: idStr, LogPrefix: "B", LocalConn: localB, RemoteConn: fsB})
+		forwardGuarded(out, &session.BidirectionalForwardConfig{TunnelID: idStr, LogPrefix: "B", LocalConn: localB, RemoteConn: fsB})
 		fdone <- "B"
 	}()
 	chunked := func(w io.Writer, data []byte) {
@@ -902,6 +957,13 @@ func runFwd(c *caseIn, out *caseOut) {
 		}
 	}
 	out.WireLen = len(req) + len(resp)
+}
+
+func minInt(a, b int) int {
+	if a < b {
+		return a
+	}
+	return b
 }
 
 func firstDiff(a, b []byte) int {
@@ -998,6 +1060,8 @@ func runCase(raw json.RawMessage) (res interface{}) {
 		runDuplex(&c, out)
 	case "fwdcut":
 		runFwdCut(&c, out)
+	case "halfclose":
+		runHalfClose(&c, out)
 	default:
 		panic("bad mode " + c.Mode)
 	}
